@@ -4,6 +4,7 @@ CONSTANTS
  DevNoFallback = FALSE
  DevSkipMax = FALSE
  DevUnwrapNoAlgCheck = FALSE
+ DevRetryKeepsBuffer = FALSE
 INIT Init
 NEXT Next
 INVARIANTS EmitSched C30_ReaderChecksum C30_ReaderSize C30_ServeSha C30_ServeSize HonestDelivered
